@@ -73,6 +73,9 @@ func (o Op) text() string {
 		return fmt.Sprintf("(swap! %s (fn (x) (do %s(+ x (h-deref %d)))))", a, g, o.Other)
 	case "resetother":
 		return fmt.Sprintf("(swap! %s (fn (x) (do %s(h-reset! %d %d) (+ x 1))))", a, g, o.Other, o.Arg)
+	case "derefself":
+		// the update function reads the atom it is applied to (a recorded read of its own)
+		return fmt.Sprintf("(swap! %s (fn (x) (do %s(h-deref %d) (+ x %d))))", a, g, o.Atom, o.Arg)
 	case "swapother":
 		// the update function swaps another atom (it may run more than once: each run swaps)
 		return fmt.Sprintf("(swap! %s (fn (x) (do %s(h-swap-add! %d %d) (+ x 1))))", a, g, o.Other, o.Arg)
@@ -112,7 +115,7 @@ var seqValues = []struct {
 
 func genOp(t *rapid.T, atoms int, allowGate bool) Op {
 	o := Op{Gate: -1, Atom: gen.Uniform(t, "atom", atoms), Arg: 1 + gen.Uniform(t, "arg", 5)}
-	kinds := []string{"deref", "deref", "reset", "add", "add", "add", "fail", "addself", "addother", "resetother", "swapother", "gensym", "memo", "resetseq", "resetseq", "conj", "setrest", "setrest", "resetloop"}
+	kinds := []string{"deref", "deref", "reset", "add", "add", "add", "fail", "addself", "addother", "resetother", "swapother", "derefself", "derefself", "gensym", "memo", "resetseq", "resetseq", "conj", "setrest", "setrest", "resetloop"}
 	o.Kind = kinds[gen.Uniform(t, "kind", len(kinds))]
 	if atoms < 2 && (o.Kind == "addother" || o.Kind == "resetother" || o.Kind == "swapother") {
 		o.Kind = "add"
@@ -127,7 +130,7 @@ func genOp(t *rapid.T, atoms int, allowGate bool) Op {
 		o.Arg = gen.Uniform(t, "seqv", len(seqValues))
 	}
 	switch o.Kind {
-	case "add", "fail", "addself", "addother", "resetother", "swapother":
+	case "add", "fail", "addself", "addother", "resetother", "swapother", "derefself":
 		if allowGate && gen.Uniform(t, "gated", 2) == 0 {
 			o.Gate = gen.Uniform(t, "gate", nGates)
 		}
@@ -141,7 +144,7 @@ func genCase(t *rapid.T) Case {
 		// contended swap: one gated swap that reads its own atom, the scheduler keeps
 		// installing new values while the update function is parked
 		k := []int{1, 2, 3, 9, 12}[gen.Uniform(t, "rounds", 5)]
-		kind := []string{"addself", "add", "addother"}[gen.Uniform(t, "ckind", 3)]
+		kind := []string{"addself", "add", "addother", "derefself", "derefself"}[gen.Uniform(t, "ckind", 5)]
 		if c.Atoms < 2 && kind == "addother" {
 			kind = "addself"
 		}
@@ -182,6 +185,23 @@ func genCase(t *rapid.T) Case {
 		}
 		for i := 0; i < n; i++ {
 			c.Sched = append(c.Sched, Ev{Kind: "release", Gate: i})
+		}
+		return c
+	}
+	if gen.Uniform(t, "pattern4", 12) == 0 {
+		// many evaluations (more than there are processors) are inside update functions at once, each about to
+		// swap another atom
+		n := 24
+		c.Atoms = 3
+		for i := 0; i < n; i++ {
+			c.Threads = append(c.Threads, []Op{{Kind: "swapother", Atom: i % 2, Other: 2, Arg: 1, Gate: 0}})
+			c.Sched = append(c.Sched, Ev{Kind: "start", Thread: i})
+		}
+		for i := 0; i < n; i++ {
+			c.Sched = append(c.Sched, Ev{Kind: "await", Gate: 0})
+		}
+		for i := 0; i < n; i++ {
+			c.Sched = append(c.Sched, Ev{Kind: "release", Gate: 0})
 		}
 		return c
 	}
@@ -448,7 +468,7 @@ func (r *runner) exec(ctx context.Context, client int, o Op) string {
 			return fmt.Sprintf("%s: reset! returned something else than its argument for the arguments %s", o.text(), out.Val)
 		}
 		return ""
-	case "add", "addself":
+	case "add", "addself", "derefself":
 		// on an atom that currently holds a sequence the update function fails: the model decides
 		r.record(client, opIn{Kind: "add", Atom: o.Atom, Arg: o.Arg}, out, t0, t1)
 	case "addcancel":
